@@ -131,8 +131,8 @@ func runC12(r *Run, p *Prog) {
 				detail := "reply literal not found"
 				if rep != nil {
 					st := fieldStores(rep)
-					e, pp := st["Error"], st["Parameters"]
-					okM = len(e) == 1 && strip(T.T(e[0])) == nameP && len(pp) == 1 && strip(T.T(pp[0])) == parP && len(st["Continues"]) == 0
+					e, pp := st[replyF.Error], st[replyF.Parameters]
+					okM = len(e) == 1 && strip(T.T(e[0])) == nameP && len(pp) == 1 && strip(T.T(pp[0])) == parP && len(st[replyF.Continues]) == 0
 					detail = fmt.Sprintf("Error=%v Parameters=%v", termsOf(T, e), termsOf(T, pp))
 				}
 				r.Ob("X1", shortName(f), "the reply carries the name and the parameters unchanged", in.Pos(), okM, detail)
@@ -400,8 +400,8 @@ func replyErrorFlow(T *Terms, t *ssa.Function, wfn map[*ssa.Function]bool) bool 
 		for _, a := range cs.Common.Args {
 			if al := unwrapAlloc(a); al != nil {
 				st := fieldStores(al)
-				e, pp := st["Error"], st["Parameters"]
-				if len(e) == 1 && len(pp) == 1 && strings.HasPrefix(strip(T.T(e[0])), "param:") && strings.HasPrefix(strip(T.T(pp[0])), "param:") && len(st["Continues"]) == 0 {
+				e, pp := st[replyF.Error], st[replyF.Parameters]
+				if len(e) == 1 && len(pp) == 1 && strings.HasPrefix(strip(T.T(e[0])), "param:") && strings.HasPrefix(strip(T.T(pp[0])), "param:") && len(st[replyF.Continues]) == 0 {
 					return true
 				}
 			}
@@ -417,7 +417,7 @@ func stdErrorHelperOK(p *Prog, T *Terms, cg *CallGraph, wfn map[*ssa.Function]bo
 	if h == nil {
 		return false, "helper Reply" + E + " not found"
 	}
-	replyT := p.NamedType(pkgVarlink, "serviceReply")
+	replyT := replyF.Type
 	if replyT == nil {
 		return false, "type serviceReply not found"
 	}
@@ -447,17 +447,17 @@ func stdErrorHelperOK(p *Prog, T *Terms, cg *CallGraph, wfn map[*ssa.Function]bo
 			}
 			n++
 			fs := fieldStores(al)
-			hasName := len(fs["Error"]) == 1 && T.T(fs["Error"][0]) == wire
+			hasName := len(fs[replyF.Error]) == 1 && T.T(fs[replyF.Error][0]) == wire
 			hasParam := false
-			if len(fs["Parameters"]) == 1 {
-				if pa := unwrapAlloc(fs["Parameters"][0]); pa != nil && isNamed(pa.Type(), pkgVarlink, E) && st != nil {
+			if len(fs[replyF.Parameters]) == 1 {
+				if pa := unwrapAlloc(fs[replyF.Parameters][0]); pa != nil && isNamed(pa.Type(), pkgVarlink, E) && st != nil {
 					vals := fieldStores(pa)[st.Field(0).Name()]
 					if len(vals) == 1 && strip(T.T(vals[0])) == "param:"+v.Params[len(v.Params)-1].Name() {
 						hasParam = true
 					}
 				}
 			}
-			noCont := len(fs["Continues"]) == 0
+			noCont := len(fs[replyF.Continues]) == 0
 			// the literal is what reaches a writing function
 			sent := false
 			for _, ref := range *al.Referrers() {
